@@ -122,3 +122,120 @@ pub fn busy_connection_expiry(chk: &Check) -> serde_json::Value {
     }
     json!({"busy_connection": {"seconds": busy_s, "small_frames_sent": small, "small_frames_delivered": smalls, "frame_reusing_the_id_delivered_intact": b_ok, "other_payloads": strange}})
 }
+
+/// The proxy as SENDER of fragments: a real quinn client sends datagrams of every body size around the connection's
+/// datagram limit (and a few large ones) to an echo origin behind the real binary; every reply (one byte longer) is
+/// fragmented by the proxy's writer for this client, reassembled here with the real `Fragments`, and must come back
+/// exactly once and intact - at every size, on both sides of the boundary between one fragment and two.
+pub fn writer_size_sweep(chk: &Check) -> serde_json::Value {
+    let origin = UdpSocket::bind("127.0.0.1:0").unwrap();
+    let oport = origin.local_addr().unwrap().port();
+    std::thread::spawn(move || {
+        let mut b = vec![0u8; 70000];
+        while let Ok((n, from)) = origin.recv_from(&mut b) {
+            let mut r = b"R".to_vec();
+            r.extend(&b[..n]);
+            let _ = origin.send_to(&r, from);
+        }
+    });
+    let (qp, hp) = (free_udp(), free_tcp());
+    let mut px = Px::start(
+        "c11w",
+        &format!("  - name: quic\n    type: quic\n    bind: 127.0.0.1:{qp}\n    tls:\n      cert: {CERTS}/server.crt\n      key: {CERTS}/server.key\n  - name: http\n    bind: 127.0.0.1:{hp}\n"),
+        "  - name: c\n    type: direct\n",
+        hp,
+    );
+    let tlsc: TlsClientConfig = serde_yaml::from_str("insecure: true").unwrap();
+    let ccfg = create_quic_client(&tlsc, false).unwrap_or_else(|e| machinery(format!("quic client config: {e}")));
+    let rt = tokio::runtime::Builder::new_multi_thread().worker_threads(2).enable_all().build().unwrap();
+    let target = TargetAddress::SocketAddr(SocketAddr::from(([127, 0, 0, 1], oport)));
+    let thorough = chk.thorough();
+    let res: Result<(usize, Vec<(usize, String)>, usize), String> = rt.block_on(async {
+        let mut ep = quinn::Endpoint::client("127.0.0.1:0".parse().unwrap()).map_err(|e| format!("endpoint: {e}"))?;
+        ep.set_default_client_config(ccfg);
+        let conn = tokio::time::timeout(Duration::from_secs(5), ep.connect(SocketAddr::from(([127, 0, 0, 1], qp)), "localhost").map_err(|e| format!("connect: {e}"))?)
+            .await
+            .map_err(|_| "handshake timed out".to_string())?
+            .map_err(|e| format!("handshake: {e}"))?;
+        let mut bad: Vec<(usize, String)> = vec![];
+        let mtu = conn.max_datagram_size().ok_or("the proxy takes no datagrams")?;
+        let mut sizes: Vec<usize> = ((mtu.saturating_sub(if thorough { 200 } else { 70 }))..(mtu + if thorough { 200 } else { 70 })).collect();
+        sizes.extend([1, 2 * mtu - 30, 2 * mtu - 20, 2 * mtu - 10, 2 * mtu, 3 * mtu - 25, 9000, 30000, 65000]);
+        let mut done = 0usize;
+        // a session (stream) may die on a write error: each size gets a working session, re-opened when needed
+        let mut session: Option<(quinn::SendStream, quinn::RecvStream, u32)> = None;
+        let mut reasm: Fragments<Frame> = Fragments::new(Duration::from_secs(5));
+        let mut id = 100u16;
+        for size in sizes.iter().copied() {
+            if session.is_none() {
+                let (mut w, mut r) = conn.open_bi().await.map_err(|e| format!("open_bi: {e}"))?;
+                w.write_all(format!("CONNECT 127.0.0.1:{oport} HTTP/1.1\r\nHost: x\r\nProxy-Protocol: udp\r\nProxy-Channel: quic-datagrams\r\n\r\n").as_bytes()).await.map_err(|e| format!("write: {e}"))?;
+                let head = read_head(&mut r).await.ok_or("no reply to the UDP CONNECT")?;
+                if !head.starts_with("HTTP/1.1 200") {
+                    return Err(format!("refused: {}", head.lines().next().unwrap_or("")));
+                }
+                let sid: u32 = head.lines().find_map(|l| l.to_ascii_lowercase().strip_prefix("session-id:").map(|v| v.trim().parse().unwrap_or(0))).unwrap_or(0);
+                session = Some((w, r, sid));
+            }
+            let sid = session.as_ref().unwrap().2;
+            let body: Vec<u8> = (0..size).map(|k| ((k * 7 + size) % 251) as u8).collect();
+            let mut f = Frame::new();
+            f.addr = Some(target.clone());
+            f.session_id = sid;
+            f.body = Bytes::from(body.clone());
+            for d in Fragments::<Frame>::make_fragments(mtu, &mut id, f) {
+                conn.send_datagram(d).map_err(|e| format!("send_datagram: {e}"))?;
+            }
+            let mut want = b"R".to_vec();
+            want.extend(&body);
+            let mut got: Vec<Vec<u8>> = vec![];
+            let deadline = tokio::time::Instant::now() + Duration::from_millis(1200);
+            loop {
+                match tokio::time::timeout_at(deadline, conn.read_datagram()).await {
+                    Ok(Ok(d)) => {
+                        if let Some(fr) = reasm.reassemble(d) {
+                            got.push(fr.body.to_vec());
+                            if got.last() == Some(&want) {
+                                // a little longer: a second copy would be a violation too
+                                if let Ok(Ok(d2)) = tokio::time::timeout(Duration::from_millis(30), conn.read_datagram()).await {
+                                    if let Some(fr2) = reasm.reassemble(d2) {
+                                        got.push(fr2.body.to_vec());
+                                    }
+                                }
+                                break;
+                            }
+                        }
+                    }
+                    Ok(Err(e)) => return Err(format!("connection ended at size {size}: {e}")),
+                    Err(_) => break,
+                }
+            }
+            done += 1;
+            if got != vec![want.clone()] {
+                bad.push((size, format!("{} frames came back ({:?} bytes)", got.len(), got.iter().map(|g| g.len()).collect::<Vec<_>>())));
+                // the session may be dead now: use a new one for the next size
+                session = None;
+            }
+        }
+        conn.close(0u32.into(), b"done");
+        ep.wait_idle().await;
+        Ok((mtu, bad, done))
+    });
+    rt.shutdown_timeout(Duration::from_secs(1));
+    let (mtu, bad, done) = match res {
+        Ok(x) => x,
+        Err(e) => machinery(format!("writer size sweep: {e}: {}", px.log())),
+    };
+    if let Some(d) = px.exited() {
+        chk.violation("fragment.on-the-wire", "process-dies:writer-sweep", format!("the proxy ended during the size sweep ({d}): {}", px.log()), json!({}));
+    }
+    if !bad.is_empty() {
+        chk.violation(
+            "fragment.on-the-wire",
+            "reply-of-some-size-not-delivered-exactly-once",
+            format!("datagram limit of the connection {mtu}: the replies to {} of {done} body sizes did not come back exactly once and intact through the proxy's fragment writer: sizes {:?}{}: {}", bad.len(), bad.iter().map(|b| b.0).take(12).collect::<Vec<_>>(), if bad.len() > 12 { " ..." } else { "" }, bad[0].1),
+            json!({"datagram_limit": mtu, "sizes": bad.iter().map(|b| b.0).collect::<Vec<_>>()}),
+        );
+    }
+    json!({"writer_size_sweep": {"datagram_limit": mtu, "sizes": done, "bad": bad.len()}})
+}
